@@ -181,6 +181,7 @@ def run_constraint(case, R):
                 alloc[k] = ts
             instr = at.ProgramInstructions(start_year=2019.0, alloc=alloc)
             adjustments = []
+            stated = {}  # (program, year) -> (limit type, lower, upper) exactly as handed to the library
             free = list(names)
             packages = []
             # optional package (single year)
@@ -216,7 +217,21 @@ def run_constraint(case, R):
                     else:
                         lo = float(rng.choice([0.0, 0.0, 10.0, 1e3]))
                         hi = float(rng.choice([np.inf, 1e5, 1e7, 1e9]))
-                    adjustments.append(OP.SpendingAdjustment(k, ty, lt, lo, hi))
+                    # years in any order, limits as one number for all years or one per year (in the order of the years given)
+                    if len(ty) >= 2 and rng.random() < 0.4:
+                        ty = [float(y) for y in rng.permutation(ty)]
+                    if len(ty) >= 2 and rng.random() < 0.4:
+                        los = [float(rng.choice([0.0, 0.5, 0.9, 1.0])) if lt == "rel" else float(rng.choice([0.0, 0.0, 10.0, 1e3])) for _ in ty]
+                        his = [float(rng.choice([1.0, 1.5, 3.0, np.inf])) if lt == "rel" else float(rng.choice([np.inf, 1e5, 1e7, 1e9])) for _ in ty]
+                        adjustments.append(OP.SpendingAdjustment(k, ty, lt, los, his))
+                        R.count("adjustments_with_per_year_limits")
+                    else:
+                        los, his = [lo] * len(ty), [hi] * len(ty)
+                        adjustments.append(OP.SpendingAdjustment(k, ty, lt, lo, hi))
+                    if list(ty) != sorted(ty):
+                        R.count("adjustments_with_years_not_ascending")
+                    for y_, lo_, hi_ in zip(ty, los, his):
+                        stated[(k, float(y_))] = (lt, lo_, hi_)
             if not adjustments:
                 continue
             mode = rng.random()
@@ -264,11 +279,12 @@ def run_constraint(case, R):
                             exp_progs.setdefault(float(t), set()).add(pn)
                             exp_bounds.setdefault(float(t), {})[pn] = (0.0, np.inf)
                 else:
-                    for t, a in zip(adj.t, adj.adjustables):
+                    for t in [y_ for (k_, y_) in stated if k_ == adj.prog_name]:
                         exp_progs.setdefault(float(t), set()).add(adj.prog_name)
                         base = float(instr0.alloc[adj.prog_name].get(t))
-                        lo = a.lower_bound if a.limit_type == "abs" else base * a.lower_bound
-                        hi = a.upper_bound if a.limit_type == "abs" else base * a.upper_bound
+                        lt_, lo_, hi_ = stated[(adj.prog_name, float(t))]
+                        lo = lo_ if lt_ == "abs" else base * lo_
+                        hi = hi_ if lt_ == "abs" else base * hi_
                         exp_bounds.setdefault(float(t), {})[adj.prog_name] = (lo, hi)
             exp_total = {}
             for t, progs in exp_progs.items():
